@@ -1,5 +1,5 @@
-//! In-crate Kani harnesses for zonetree::in_memory::versioned (private module), included by the hook
-//! `#[cfg(kani)] #[path = "/verif/kani/incrate/versioned.rs"] mod verif_kani;`
+// In-crate Kani harnesses (included with include!, so no inner doc comments here)
+// hook: #[cfg(kani)] mod verif_kani { include!("/verif/kani/incrate/<file>.rs"); }
 use super::*;
 
 fn ver_le(a: u32, b: u32) -> bool {
